@@ -25,6 +25,9 @@ type SimplePage struct {
 	// ([0 0 12 0 R 13 0 R], legal: any array element may be indirect);
 	// "zero" = the degenerate box [0 0 0 0].
 	Box string
+	// UserUnit, when non-zero, is written as /UserUnit (PDF 1.6: the size of a
+	// user-space unit in 1/72 inch; coordinates stay in user space).
+	UserUnit float64
 }
 
 // SimplePDF writes a plain single-revision PDF (classic xref, direct lengths,
@@ -61,9 +64,13 @@ func SimplePDF(pages []SimplePage) []byte {
 			}
 			fmt.Fprintf(&sb, "BT /%s %s Tf 1 0 0 %s %s %s Tm %s Tj ET\n", font, fnum(it.Size), d, fnum(it.X), fnum(it.Y), e.Buf.String())
 		}
+		extra := Dict{}
+		if p.UserUnit != 0 {
+			extra = append(extra, KV{"UserUnit", p.UserUnit})
+		}
 		objs = append(objs,
-			RevObj{Key: pk, Num: pn, Obj: Dict{{"Type", Name("Page")}, {"Parent", Ref{"root"}}, {"MediaBox", boxOf(i, p, &objs, next)},
-				{"Resources", Dict{{"Font", Dict{{"F1", Ref{"f1"}}, {"F2", Ref{"f2"}}}}}}, {"Contents", Ref{ck}}}},
+			RevObj{Key: pk, Num: pn, Obj: append(Dict{{"Type", Name("Page")}, {"Parent", Ref{"root"}}, {"MediaBox", boxOf(i, p, &objs, next)},
+				{"Resources", Dict{{"Font", Dict{{"F1", Ref{"f1"}}, {"F2", Ref{"f2"}}}}}}, {"Contents", Ref{ck}}}, extra...)},
 			RevObj{Key: ck, Num: cn, Obj: &Stream{Raw: []byte(sb.String()), LenMode: "direct"}})
 		kids = append(kids, Ref{pk})
 	}
